@@ -19,7 +19,7 @@ def main(tier):
     common_jobs.run_lcd_inv(ck)
     ck.run([('ppu', 'VerifSpriteScan', {}), ('ppu', 'VerifScanSchedule', {})], timeout_ms=600000, setup=stub_render)
     jobs = [('ppu', 'VerifRenderSchedule', {})]
-    wins = [(0, 10), (15, 10), (30, 10)] if tier == 'quick' else [(0, 10), (10, 10), (20, 10), (30, 10), (5, 10), (15, 10), (25, 10), (0, 20), (20, 20)]
+    wins = [(0, 10), (15, 10), (30, 10)] if tier == 'quick' else [(0, 10), (10, 10), (20, 10), (30, 10), (5, 10), (15, 10), (25, 10), (0, 20), (20, 20), (10, 20)] + ([(0, 40)] if os.environ.get('VERIF_C15_ALL40') else [])
     jobs += [('ppu', 'VerifPixel', {'lo': lo, 'n': n}) for lo, n in wins]
     ck.run(jobs, timeout_ms=1800000, max_unwind=64)
     ck.finish(explanation='renderPixel vs reference DMG composition')
